@@ -13,7 +13,7 @@ pub struct C20;
 fn word_like(t: &Tok) -> bool { matches!(t.kind, TK::Keyword | TK::Name | TK::Ident | TK::Number) }
 
 /// may the blank between two neighbouring tokens be dropped without the two running together?
-fn can_touch(a: &Tok, b: &Tok) -> bool {
+pub fn can_touch(a: &Tok, b: &Tok) -> bool {
     if word_like(a) && word_like(b) { return false; }
     if a.kind == TK::Str || b.kind == TK::Str { return a.kind == TK::Punct && a.text != "=>" || b.kind == TK::Punct && b.text != "=>"; }
     let opish = |t: &Tok| t.kind == TK::Op || t.text == "=>";
@@ -93,6 +93,12 @@ impl Monitor for C20 {
     fn exhaustive_note(&self) -> Option<String> { None }
 
     fn generate(&self, rng: &mut Rng, _tier: Tier) -> J {
+        if rng.chance(1, 8) {
+            // a string literal in several positions: its text is verbatim apart from the backslash escapes
+            let alphabet = ["a", "b", " ", "'", "\\", "-", "--", ";", ":", "::", "\n", "\t", "\"", "\u{e5}", "\u{1F600}", "%", "(", "SELECT", "n", "t"];
+            let text: String = if rng.chance(1, 3) { rng.pick(&["", "\\", "'", "C:\\logs\\", "it's", "a -- b", "x;y", "'quoted'", "\\'", "'\\", "\\\\", "tab\there", "line\nbreak", "--", "\\n"]).to_string() } else { let n = rng.below(8); (0..n).map(|_| *rng.pick(&alphabet)).collect() };
+            return json!({"literal": text, "position": *rng.pick(&["projection", "where", "in-list", "function-arg", "file-name", "join-file", "case-branch"])});
+        }
         let js = rng.chance(1, 2);
         let t = std_table(rng, "t", js, false);
         let (toks, sel): (Vec<Tok>, Option<Sel>) = if rng.chance(1, 4) {
@@ -134,6 +140,7 @@ impl Monitor for C20 {
     }
 
     fn check(&self, case: &J, obs: &mut Obs) -> Verdict {
+        if let Some(text) = case.get("literal").and_then(|t| t.as_str()) { return check_literal(text, case["position"].as_str().unwrap_or("projection"), obs); }
         let base = case["base"].as_str().unwrap_or("");
         let want = match debug_of(base) {
             Ok(d) => d,
@@ -187,4 +194,43 @@ impl Monitor for C20 {
         }
         if vs.is_empty() { Verdict::Held } else { Verdict::Violated(vs) }
     }
+}
+
+
+/// `'<text with quotes and backslashes escaped>'` written at one position of a statement must come out of the parser as
+/// exactly <text> (looked up in the lowered statement), and the tokens after it must still be understood
+fn check_literal(text: &str, position: &str, obs: &mut Obs) -> Verdict {
+    use sqlgrep::model::{ExpressionTree, Statement, Value};
+    let lit = quote(text);
+    let sql = match position {
+        "where" => format!("SELECT k FROM t WHERE s = {} LIMIT 3", lit),
+        "in-list" => format!("SELECT k FROM t WHERE s IN ( 'x' , {} , 'y' ) LIMIT 3", lit),
+        "function-arg" => format!("SELECT upper ( {} ) , 7 FROM t", lit),
+        "case-branch" => format!("SELECT CASE WHEN TRUE THEN {} ELSE 'e' END , 7 FROM t", lit),
+        "file-name" => format!("SELECT k FROM t :: {} WHERE g = 1", lit),
+        "join-file" => format!("SELECT k FROM t INNER JOIN u :: {} ON t . k = u . k LIMIT 2", lit),
+        _ => format!("SELECT {} , 7 FROM t", lit),
+    };
+    obs.evals += 1;
+    obs.hit(&format!("literal:{}", position));
+    if text.contains('\\') || text.contains('\'') { obs.sub(crate::rng::fnv1a(sql.as_bytes())); }
+    let stmt = match guard(|| sqlgrep::parsing::parse(&sql)) {
+        Err(p) => return Verdict::Violated(vec![Violation::new(format!("literal|{}|panic", position), format!("{:?}: {}", sql, p.describe()))]),
+        Ok(Err(e)) => return Verdict::Violated(vec![Violation::new(format!("literal|{}|rejected", position), format!("{:?} (literal text {:?}): {}", sql, text, e))]),
+        Ok(Ok(s)) => s,
+    };
+    let Statement::Select(sel) = &stmt else { return Verdict::Violated(vec![Violation::new(format!("literal|{}|not-a-select", position), format!("{:?} parsed as {:?}", sql, stmt))]) };
+    fn strings(t: &ExpressionTree, out: &mut Vec<String>) { let _ = t.visit::<(), _>(&mut |n| { if let ExpressionTree::Value(Value::String(s)) = n { out.push(s.clone()); } Ok(()) }); }
+    let mut found: Vec<String> = Vec::new();
+    let rest_ok = match position {
+        "where" => { if let Some(f) = &sel.filter { strings(f, &mut found); } sel.limit == Some(3) }
+        "in-list" => { if let Some(f) = &sel.filter { strings(f, &mut found); } found.retain(|s| s != "x" && s != "y" || s == text); sel.limit == Some(3) }
+        "file-name" => { if let Some(f) = &sel.filename { found.push(f.clone()); } sel.filter.is_some() }
+        "join-file" => { if let Some(j) = &sel.join { found.push(j.joined_filename.clone()); } sel.limit == Some(2) }
+        "case-branch" => { if let Some((_, e)) = sel.projections.first() { strings(e, &mut found); } found.retain(|s| s != "e" || s == text); sel.projections.len() == 2 }
+        _ => { if let Some((_, e)) = sel.projections.first() { strings(e, &mut found); } sel.projections.len() == 2 }
+    };
+    if !found.iter().any(|s| s == text) { return Verdict::Violated(vec![Violation::new(format!("literal|{}|text-differs", position), format!("{:?}: the literal {:?} arrived as {:?}", sql, text, found))]); }
+    if !rest_ok { return Verdict::Violated(vec![Violation::new(format!("literal|{}|rest-of-statement-lost", position), format!("{:?}: what follows the literal was not understood: {:?}", sql, stmt))]); }
+    Verdict::Held
 }
